@@ -2,7 +2,7 @@
    The model (LL/LLModel.v) is the code AFTER the repair branch fix/C21-instant-checks; the comparisons as they were
    written before are LLSpecC21.old_update_check / old_map_check / old_phy_check (refuted below). *)
 From Coq Require Import NArith List Bool.
-From BT Require Import Base.ListX LL.LLModel LL.LLSpec LL.LLSpecC21 LL.LLProofsC21.
+From BT Require Import Base.ListX LL.LLModel LL.LLSpec LL.LLSpecC21 LL.LLProofsC21 LL.LLSimC21.
 From BT Require gen.GenLL ChanMap.ChanMapModel.
 Import ListNotations.
 Local Open Scope N_scope.
@@ -175,13 +175,41 @@ Proof. exact monitor_accepts_all_refuted. Qed.
 Print Assumptions C21_monitor_accepts_all_refuted.
 Theorem C21_update_for_the_next_event_is_refused : verdict21 (trace21 witness_next_event) = Bad 7.
 Proof. exact witness_next_event_rejected. Qed.
-(* ... and for the rest (no connection update naming the next event, no disconnect(), no LLID 1 fragment, no encryption,
-   update parameters in the Core ranges, channel maps with >= 2 channels) it is NOT PROVED, only tested on every run
-   against model and implementation: *)
-Definition C21_monitor_accepts_rest_full : Prop :=
-  forall c ops, Forall op_ok ops ->
+(* ... and for the rest: the monitor never raises one of the clauses 1 - 6 of this property ( 7 = the known finding;
+   8.. = fault / counter / channel / shape, not clauses of this property ). Without an environment that is still false:
+   four callbacks in one connection event fill the ring of callback events (C29, DESIGN section 7 #25), the closed( 0x28 )
+   callback of a refused indication is lost and the monitor raises instant_passed_terminates: *)
+Definition C21_monitor_accepts_rest_full : Prop := monitor_accepts_rest_full.
+Theorem C21_monitor_accepts_rest_refuted : ~ C21_monitor_accepts_rest_full.
+Proof. exact monitor_accepts_rest_refuted. Qed.
+Print Assumptions C21_monitor_accepts_rest_refuted.
+(* What is proved, for every configuration and every operation sequence of ANY length (simulation between the state of the
+   link layer model and the state of the monitor, LL/LLSimC21.v): in the environment [env_run] the monitor never raises a
+   clause 1 - 6. [env_run] is an executable predicate on the run (model and monitor in lock step); it excludes exactly
+     (a) operations that deliver 4 or more callbacks (the ring overflow above), and
+     (b) connection events / event cancelations in which the number of events the monitor DERIVES from the window handed
+         to the radio ( centre / interval, the transmit window of an update subtracted ) differs from the number of events
+         the link layer's counter moved - i.e. the correctness of that derivation ( 32 bit microsecond arithmetic, ppm
+         widening: C22 / C23 ) is assumed, not proved; on every run it is checked by the monitor clause `counter` (`st`).
+   Everything else is proved: which PDU is looked at in which event, refused / deferred = the Core's rule, nothing of a
+   waiting procedure is visible before its instant, at the instant the channel (CSA#1 of the new map, theorems of C20),
+   the interval and the changed callback, the PHY item are the PDU's, the ATT answers owed are on air, the end of a link
+   is seen, try_event_cancelation() after an application moves nothing. *)
+Theorem C21_monitor_accepts_partial :
+  forall c ops, Forall op_ok ops -> env_run c (linit c) (minit21 c) ops = true ->
     forall k, mrun21 c (minit21 c) (lrun c (linit c) ops) = Bad k -> (k = 7 \/ 8 <= k)%nat.
-(* ( 7 = the known finding; 8.. = fault / counter / channel / shape, not clauses of this property ) *)
+Proof. exact monitor_accepts_partial. Qed.
+Print Assumptions C21_monitor_accepts_partial.
+(* the environment is met: the session below (three procedures, traffic, lost events) and a session with cancelations *)
+Example C21_environment_nonvacuous :
+  env_run cfg21 (linit cfg21) (minit21 cfg21) session21 = true
+  /\ env_run cfg21 (linit cfg21) (minit21 cfg21)
+       [Run; connect21 3; Ev 0 []; Ev 2 [map_pdu 20]; Ev 0 []; Cancel true 100; St; Ev 0 []; Ev 0 []; Ev 0 []; Cancel true 100; St; Ev 0 []] = true.
+Proof. exact (conj env_session21 env_cancel_session). Qed.
+(* ... and it is what separates the witness above *)
+Example C21_environment_excludes_the_ring_overflow :
+  verdict21 (trace21 witness_ring_overflow) = Bad 3 /\ env_run cfg21 (linit cfg21) (minit21 cfg21) witness_ring_overflow = false.
+Proof. exact witness_ring_overflow_rejected. Qed.
 
 (* ------------------------------------------------------------------------------------------ examples: non-vacuity *)
 (* the hypotheses are met and the monitor accepts: all three procedures, traffic while they wait, instants on missed events *)
